@@ -53,8 +53,8 @@ func c14Gen(runSeed uint64, tier string) *gen.Scenario {
 func c14Tuples(n int) []T {
 	var out []T
 	for i := 0; len(out) < n; i++ {
-		typ := []string{"doc", "group"}[i%2]
-		t := T{Obj: fmt.Sprintf("%s:%d", typ, i/6), Rel: []string{"viewer", "member"}[(i/2)%2], User: fmt.Sprintf("user:%c", 'a'+byte(i%3)), X: -1}
+		typ := []string{"doc", "group", "docs"}[i%3] // "docs": a type whose name starts with another type's name
+		t := T{Obj: fmt.Sprintf("%s:%d", typ, i/18), Rel: []string{"viewer", "member"}[(i/3)%2], User: fmt.Sprintf("user:%c", 'a'+byte((i/6)%3)), X: -1}
 		if i%5 == 0 {
 			t.Cond, t.X = "c1", int64(i%4)
 		}
